@@ -243,6 +243,7 @@ def run(ctx):
     mirrored_slots(ctx)
     overload_order(ctx)
     const_this_protocol(ctx)
+    runtime_sized_allocations_checked(ctx)
 
 
 def _canon_arm(db, f, stmts, label):
@@ -493,3 +494,37 @@ def const_this_protocol(ctx):
                        "write_function_forset(..., verify_const = false) follows the emission of %s" % ("the _NonConst extractor" if ok else "the const-accepting extractor (line %d): a const object can be mutated through this wrapper" % f.line_of(last[1])))
     ctx.floor("R02.7", "wrappers written with verify_const = false", n, 2)
 
+
+
+def runtime_sized_allocations_checked(ctx):
+    """R02.8: a Python allocation whose size comes from the wrapped program (MAKE_SEQ: the user's length getter) can fail
+    for reasons other than exhaustion - PyTuple_New(-1) returns NULL with SystemError set.  The emitted code must test the
+    result before it uses it (the loop is skipped for a negative count, and the error path runs Py_DECREF on it).
+    Decided on the emitted text of the generator function, in emission order.  (F-C02b.)"""
+    import re
+    db = ctx.db
+    ctx.rule("R02.8", "in the python-native generator, text that allocates `X = Py{Tuple,List}_New(<an identifier, i.e. a run-time size>)` is followed, before any other mention of X, by a test of X against null that returns")
+    n = 0
+    for f in db.functions:
+        if not f.file.endswith("interfaceMakerPythonNative.cxx"):
+            continue
+        lits = [(f.line_of(x), x.get("i", 0), x.get("v") or "", x) for x in f.walk() if x.get("k") == "str"]
+        lits.sort(key=lambda e: (e[0], e[1]))
+        text = ""
+        origin = []
+        for line, _, v, node in lits:
+            origin.append((len(text), node))
+            text += v
+        for m in re.finditer(r"(\w+)\s*=\s*Py(?:Tuple|List)_New\(\s*([A-Za-z_]\w*)\s*\)\s*;", text):
+            var, size = m.group(1), m.group(2)
+            n += 1
+            rest = text[m.end():]
+            nxt = re.search(r"\b%s\b" % re.escape(var), rest)
+            ok = False
+            if nxt:
+                seg = rest[max(0, nxt.start() - 8):nxt.end() + 40]
+                ok = bool(re.search(r"if\s*\(\s*(?:%s\s*==\s*(?:nullptr|NULL|0)|!\s*%s|(?:nullptr|NULL)\s*==\s*%s)\s*\)\s*\{?\s*return" % (var, var, var), seg))
+            node = [nd for off, nd in origin if off <= m.start()][-1]
+            ctx.ob("R02.8", "%s|%s=New(%s)|tested-before-use" % (f.name.split("::")[-1], var, size), ok, f.loc(node),
+                   "`%s` allocated with the run-time size `%s` is %stested for NULL before its first use" % (var, size, "" if ok else "NOT "))
+    ctx.floor("R02.8", "allocations with a run-time size in emitted code", n, 1)
